@@ -311,7 +311,7 @@ fn run_case(ctx: &mut Ctx, idx: u64, v1: &Vocab) {
 
 pub fn run(ctx: &mut Ctx) {
     let v1 = vocab::v1(false);
-    let n_cases = ctx.pick(2400, 200000);
+    let n_cases = ctx.pick(6000, 200000);
     for idx in 0..n_cases {
         if !ctx.mine(idx) {
             continue;
